@@ -30,6 +30,20 @@ func cmdSelftest(args []string) {
 	only := fs.String("only", "", "run only mutants whose name contains this")
 	prop := fs.String("prop", "", "run only mutants of this property")
 	fs.Parse(args)
+	_, bad := runMutants(*prop, *only, true)
+	if bad > 0 {
+		fmt.Printf("selftest: %d unexpected results\n", bad)
+		os.Exit(1)
+	}
+	fmt.Println("selftest: all as expected")
+}
+
+// runMutants applies the corpus entries of one property (or all) as overlays and reports, per entry, whether the check
+// behaves as expected (a must-fail mutant fails a named obligation, a harmless edit passes).
+func runMutants(propFilter, only string, verbose bool) ([]map[string]interface{}, int) {
+	prop, onlyP := &propFilter, &only
+	only2 := onlyP
+	_ = only2
 	files, _ := filepath.Glob(filepath.Join(verifDir, "selftest", "*.json"))
 	sort.Strings(files)
 	var muts []Mutant
@@ -50,7 +64,7 @@ func cmdSelftest(args []string) {
 	bad := 0
 	results := []map[string]interface{}{}
 	for _, m := range muts {
-		if *only != "" && !strings.Contains(m.Name, *only) {
+		if *onlyP != "" && !strings.Contains(m.Name, *onlyP) {
 			continue
 		}
 		if *prop != "" && m.Property != *prop {
@@ -115,7 +129,9 @@ func cmdSelftest(args []string) {
 		if len(show) > 6 {
 			show = append(show[:6], fmt.Sprintf("... +%d", len(show)-6))
 		}
-		fmt.Printf("SELFTEST %-10s %s [%s] expect=%q failed=%v (%.0fs)\n", verdict, m.Name, m.Property, m.Expect, show, time.Since(start).Seconds())
+		if verbose || verdict != "ok" {
+			fmt.Printf("SELFTEST %-10s %s [%s] expect=%q failed=%v (%.0fs)\n", verdict, m.Name, m.Property, m.Expect, show, time.Since(start).Seconds())
+		}
 		results = append(results, map[string]interface{}{"name": m.Name, "property": m.Property, "expect": m.Expect, "verdict": verdict, "failed": show})
 		os.RemoveAll(outDir)
 		// every mutant loads its own SSA program: drop what refers to it (the whole corpus once grew to 65 GB and was killed)
@@ -124,9 +140,5 @@ func cmdSelftest(args []string) {
 		debug.FreeOSMemory()
 	}
 	writeJSON(filepath.Join(verifDir, "out", "selftest-results.json"), results)
-	if bad > 0 {
-		fmt.Printf("selftest: %d unexpected results\n", bad)
-		os.Exit(1)
-	}
-	fmt.Println("selftest: all as expected")
+	return results, bad
 }
